@@ -68,7 +68,10 @@ func main() {
 		os.Exit(4)
 	}()
 	if err := f(c); err != nil {
+		// the driver gave up (e.g. the server no longer starts); what it recorded so far is
+		// still a behaviour of the real code and is validated by the caller
 		fmt.Fprintln(os.Stderr, "drv:", err)
+		hx.FlushAll()
 		os.Exit(3)
 	}
 	c.summary["wall_s"] = time.Since(start).Seconds()
